@@ -61,6 +61,7 @@ def posStep (dn iname ref : String) (nports : Nat) (acc : St × Nat) (e : XExpr)
     let p := populateNew (some ((ws.length : Int) - 1)) (some 0)
     let port : Port := ⟨none, .undef, p.1, p.2.2, List.replicate p.2.1 none, none⟩
     let rd ← getDef s ref
+    if !rd.primitive then throw "assert: positional port map with more expressions than the declared module has ports" else
     let k := rd.ports.length
     let s := s.upd ref (fun d => { d with ports := d.ports ++ [port] })
     let s := mapInstRows s ref k (fun _ => List.replicate p.2.1 none)
@@ -96,6 +97,8 @@ theorem posStep_wf (dn iname ref : String) (nports : Nat) (acc r : St × Nat) (e
       | error x => simp [hg] at h
       | ok rd' =>
         simp only [hg] at h
+        split at h
+        · simp [throw, throwThe, MonadExceptOf.throw] at h
         have hrd' := find_has w1 (getDef_find hg)
         have w2 := add_unnamed_port_wf S1 ref rd' (populateNew (some ((ws.length : Int) - 1)) (some 0)).2.1
           (populateNew (some ((ws.length : Int) - 1)) (some 0)).1
